@@ -157,28 +157,13 @@ def keyword_set(schema: dict) -> tuple:
     return tuple(sorted(ks))
 
 
-def run_type(i, label, spec, tier, st):
-    env = dc.build_env(spec)
-    ctx0 = Ctx(env=env)
-    if well_formed(spec, ctx0) or "flat_nested" in label:
-        return
-    lvl = dc.level_of(label)
-    case = dc.Case(label, spec)
-    try:
-        rz = case.realize()
-    except Exception as e:
-        st.violation({"label": label, "signature": {"kind": "realize_error"}, "what": repr(e)[:300], "harness_error": True, "traceback": repr(e)})
-        return
-    st.count("types")
-    if i % 101 == 0:
-        st.sample({"type": short(spec), "label": label})
-    data = [d for _, d in enumerate_data(spec, ctx0, k=1, wide=lvl <= 1)]
+def check_versions(tp, data, label, type_repr, source, shape, deser_only, st):
     sides = [("deser", deserialization_schema, "deserialization"), ("ser", serialization_schema, "serialization")]
-    if lvl > 1 and tier == "quick":
+    if deser_only:
         sides = sides[:1]
     for side, fn, defkey in sides:
         try:
-            ref_schema = json.loads(json.dumps(fn(rz.tp)))
+            ref_schema = json.loads(json.dumps(fn(tp)))
             ref_validator = Draft202012Validator(ref_schema)
             ref_verdicts = [ref_validator.is_valid(d) for d in data]
         except Exception as e:
@@ -186,16 +171,16 @@ def run_type(i, label, spec, tier, st):
             continue
         ref_validator30 = None
         for vname, version in VERSIONS.items():
-            base = {"label": label, "type": short(spec), "options": [side, vname], "source": rz.source}
+            base = {"label": label, "type": type_repr, "options": [side, vname], "source": source}
             try:
-                conv = json.loads(json.dumps(fn(rz.tp, version=version)))
+                conv = json.loads(json.dumps(fn(tp, version=version)))
                 defs = {}
                 if vname in ("oas3.0", "oas3.1"):
-                    defs = json.loads(json.dumps(definitions_schema(**{defkey: [rz.tp]}, version=version)))
+                    defs = json.loads(json.dumps(definitions_schema(**{defkey: [tp]}, version=version)))
             except Exception as e:
                 st.violation(dict(base, signature={"kind": "conversion_exception", "exc": type(e).__name__, "version": vname}, what=f"{fn.__name__}(version={vname}) raised {e!r}"[:300]))
                 continue
-            st.case(dc.shape_of(label), vname, side, keyword_set(conv))
+            st.case(shape, vname, side, keyword_set(conv))
             probs = vocabulary_problems(conv, vname)
             for dname, dschema in defs.items():
                 probs += [f"definitions[{dname}]: " + p for p in vocabulary_problems(dschema, vname)]
@@ -236,11 +221,93 @@ def run_type(i, label, spec, tier, st):
                         )
                     )
                     break
+
+
+def run_type(i, label, spec, tier, st):
+    env = dc.build_env(spec)
+    ctx0 = Ctx(env=env)
+    if well_formed(spec, ctx0) or "flat_nested" in label:
+        return
+    lvl = dc.level_of(label)
+    case = dc.Case(label, spec)
+    try:
+        rz = case.realize()
+    except Exception as e:
+        st.violation({"label": label, "signature": {"kind": "realize_error"}, "what": repr(e)[:300], "harness_error": True, "traceback": repr(e)})
+        return
+    st.count("types")
+    if i % 101 == 0:
+        st.sample({"type": short(spec), "label": label})
+    data = [d for _, d in enumerate_data(spec, ctx0, k=1, wide=lvl <= 1)]
+    check_versions(rz.tp, data, label, short(spec), rz.source, dc.shape_of(label), lvl > 1 and tier == "quick", st)
     case.drop()
     dc.periodic_reset(i)
 
 
+WORLD_SRC = '''
+@discriminator("kind")
+@dataclass
+class Payment:
+    amount: int = 0
+    card: Optional[str] = None
+    cvv: Optional[str] = None
+dependent_required({"card": ["cvv"]}, owner=Payment)
+@dataclass
+class Online(Payment):
+    url: str = ""
+@dataclass
+class Shop(Payment):
+    till: Tuple[int, str] = (0, "")
+@schema(description="annotated parent")
+@discriminator("sort")
+@dataclass
+class Shape:
+    name: Optional[Literal["a"]] = None
+    tags: Tuple[int, int] = (0, 0)
+@dataclass
+class Disc(Shape):
+    r: Optional[int] = None
+@dataclass
+class Holder:
+    pay: Payment = field(default_factory=Shop)
+    shapes: List[Shape] = field(default_factory=list)
+Ann = Annotated[Union[Online, Shop], discriminator("type")]
+'''
+
+
+def run_worlds(st):
+    """discriminated parents / children / annotated unions (outside the C01 grammar): their definitions carry keywords
+    (dependentRequired, prefixItems, const, type arrays) that every dialect must convert at every level"""
+    import sys
+
+    from ..realize import PRELUDE, exec_source
+
+    m = exec_source(PRELUDE + WORLD_SRC)
+    pay = [{"kind": "Online"}, {"kind": "Online", "amount": 1, "card": "4000"}, {"kind": "Online", "card": "4", "cvv": "1"}, {"kind": "Shop", "till": [1, "a"]}, {"kind": "Shop", "till": [1]},
+           {"kind": "Shop", "till": ["a", 1]}, {"kind": "nope"}, {}, {"amount": "x", "kind": "Online"}, {"kind": "Online", "url": 3}, None, []]
+    shp = [{"sort": "Disc"}, {"sort": "Disc", "name": "a", "r": None}, {"sort": "Disc", "name": "b"}, {"sort": "Disc", "tags": [1, 2]}, {"sort": "Disc", "tags": [1]}, {"sort": "Disc", "r": "x"}, {}, None]
+    targets = [
+        ("Payment", m.Payment, pay),
+        ("Online", m.Online, [{k: v for k, v in d.items() if k != "kind"} if isinstance(d, dict) else d for d in pay]),
+        ("ListPayment", List[m.Payment], [[d] for d in pay] + [[]]),
+        ("Shape", m.Shape, shp),
+        ("Holder", m.Holder, [{}, {"pay": pay[1]}, {"pay": pay[2]}, {"shapes": [shp[1], shp[4]]}, {"shapes": [shp[3]]}, {"pay": pay[4]}]),
+        ("Ann", m.Ann, [{"type": "Online"}, {"type": "Online", "card": "4"}, {"type": "Shop", "till": [1, "a"]}, {"type": "Shop", "till": [1]}, {"type": "x"}, {}]),
+    ]
+    try:
+        for name, tp, data in targets:
+            check_versions(tp, data, "world:" + name, name, WORLD_SRC, "world:" + name, False, st)
+    finally:
+        sys.modules.pop(m.__name__, None)
+        apischema.cache.reset()
+    st.count("worlds", len(targets))
+
+
 def work(tier, widx, nworkers, st, extra):
+    import os
+
+    if widx == 0 and os.environ.get("VERIF_ONLY") in (None, "", "world"):
+        run_worlds(st)
     for i, label, spec in dc.my_types(tier, widx, nworkers):
         run_type(i, label, spec, tier, st)
 
